@@ -10,6 +10,7 @@ import (
 	"context"
 	"encoding/json"
 	"fmt"
+	"html"
 	"math/rand"
 	"os"
 	"sort"
@@ -141,6 +142,9 @@ func (h *Harness) Judge(cases []*Case, label string) {
 	skips := 0
 	for _, c := range cases {
 		if c.Skip != "" {
+			if c.SkipOK && strings.HasPrefix(c.Skip, "compile:") {
+				continue // a model program the Soy checker rejects (e.g. an unused let)
+			}
 			skips++
 			if skips <= 3 {
 				ctx.ToolError("%s: case could not be executed (%s)\n%s", label, c.Skip, c.Src())
@@ -253,30 +257,44 @@ func agree(a, b core.Obs) bool {
 }
 
 type rewrite struct {
-	feature string
-	f       func(*core.Program) (*core.Program, bool)
+	class string
+	f     func(*core.Program) (*core.Program, bool)
 }
+
+// scopeClasses are the classes that alpha-renaming-like rewrites explain.
+var scopeClasses = map[string]bool{"let-reads-the-name-it-binds": true, "let-visible-after-its-block": true}
 
 var rewrites = []rewrite{
 	{"neg-of-negative-literal", DropDoubleNeg},
 	{"neg-before-nullsafe-ref", ParenNegNullSafe},
 	{"isNonnull-of-nullsafe-ref", ParenIsNonnullNullSafe},
-	{"foreach-over-range", RangeToList},
+	{"css-base-is-nullsafe-ref", ParenCssNullSafe},
+	{"ifempty-on-range-loop", RangeToList(true)},
+	{"loop-helper-on-range-loop", RangeToList(false)},
+	{"loop-helper-on-outer-loop-var", HoistOuterHelpers},
 	{"let-reads-the-name-it-binds", SplitSelfRef},
-	{"local-visible-after-its-block", func(p *core.Program) (*core.Program, bool) { return AlphaRename(p), true }},
+	{"let-visible-after-its-block", func(p *core.Program) (*core.Program, bool) { return AlphaRename(p), true }},
 }
 
 // Classify names the structural features of a disagreement. Each rewrite
 // removes the trigger of one class of generator defects while preserving the
 // program's meaning (the Go output must stay the same); a rewrite that changes
 // what the JavaScript prints names a class the disagreement belongs to. What
-// is left after all rewrites is named by its symptom.
+// is left after all rewrites is named by the construct of the family (if any)
+// and its symptom.
 func (h *Harness) Classify(c *Case) []string {
-	var feats []string
+	base := c.Base()
+	with := func(class string) string {
+		if base == "" {
+			return class
+		}
+		return base + "," + class
+	}
 	if c.Verdict == "GO" {
 		// JS = spec, Go differs: the Go side left the language
-		return []string{c.featurePrefix() + "go-differs-from-spec-and-js"}
+		return []string{with("go-differs-from-spec-and-js")}
 	}
+	var feats []string
 	cur := c
 	for _, rw := range rewrites {
 		if c.Msgs != "" {
@@ -290,13 +308,17 @@ func (h *Harness) Classify(c *Case) []string {
 		h.run.Exec(nc)
 		h.ctx.AddEvals(1)
 		if h.verbose {
-			fmt.Printf("rewrite %s: skip=%q go=%+v js=%+v\n%s\n", rw.feature, nc.Skip, nc.Go, nc.JSObs, nc.Src())
+			fmt.Printf("rewrite %s: skip=%q go=%+v js=%+v\n%s\n", rw.class, nc.Skip, nc.Go, nc.JSObs, nc.Src())
 		}
 		if nc.Skip != "" || !agree(nc.Go, c.Go) {
 			continue // not applicable (compiler rejects it) or not meaning-preserving here
 		}
 		if !agree(nc.JSObs, cur.JSObs) || nc.JSObs.ErrText != cur.JSObs.ErrText {
-			feats = append(feats, c.featurePrefix()+rw.feature)
+			if c.Family == "scope" && scopeClasses[rw.class] {
+				feats = append(feats, base) // the family's own structural name
+			} else {
+				feats = append(feats, rw.class)
+			}
 		}
 		cur = nc
 		if agree(cur.Go, cur.JSObs) {
@@ -304,16 +326,56 @@ func (h *Harness) Classify(c *Case) []string {
 		}
 	}
 	if !agree(cur.Go, cur.JSObs) || len(feats) == 0 {
-		feats = append(feats, c.featurePrefix()+symptom(cur))
+		feats = append(feats, with(h.symptomOf(cur)))
 	}
 	return feats
 }
 
-func (c *Case) featurePrefix() string {
-	if c.Feature != "" {
-		return c.Feature + ","
+// Base is the coarse construct name of a family case (the part of Feature
+// before the first comma); "" for random cases.
+func (c *Case) Base() string {
+	if i := strings.IndexByte(c.Feature, ','); i >= 0 {
+		return c.Feature[:i]
 	}
-	return ""
+	return c.Feature
+}
+
+// printDirs returns the directive chain of the single print of a one-print
+// program, or nil.
+func printDirs(c *Case) (core.Cmd, []core.Cmd) {
+	t := c.Prog.Bundle[c.Prog.Entry]
+	if t == nil || len(t.Body) != 1 || t.Body[0]["k"] != "print" {
+		return nil, nil
+	}
+	return t.Body[0], asCmds(t.Body[0]["dirs"])
+}
+
+// symptomOf names what is observably wrong; for print directives it tests two
+// hypotheses on the real code: "JS leaves raw what Go escapes" and "JS applies
+// the chain in the reverse order".
+func (h *Harness) symptomOf(c *Case) string {
+	if pc, dirs := printDirs(c); pc != nil && len(dirs) > 0 && !c.Go.Err && !c.JSObs.Err {
+		if html.UnescapeString(c.Go.Out) == c.JSObs.Out && c.Go.Out != c.JSObs.Out {
+			return "js-unescaped"
+		}
+		if len(dirs) > 1 {
+			q := CloneProgram(c.Prog)
+			b := q.Bundle[q.Entry].Body[0]
+			ds := asCmds(b["dirs"])
+			rev := make([]core.Cmd, len(ds))
+			for i := range ds {
+				rev[len(ds)-1-i] = ds[i]
+			}
+			b["dirs"] = rev
+			nc := &Case{Family: c.Family, Prog: q, Style: c.Style}
+			h.run.Exec(nc)
+			h.ctx.AddEvals(1)
+			if nc.Skip == "" && !nc.Go.Err && canon(nc.Go.Out) == canon(c.JSObs.Out) {
+				return "js-applies-chain-in-reverse-order"
+			}
+		}
+	}
+	return symptom(c)
 }
 
 func symptom(c *Case) string {
@@ -348,7 +410,3 @@ func sortedReasonKeys(m map[string]int) []string {
 	sort.Strings(ks)
 	return ks
 }
-
-// ScopeModel is M1 + replay of the SoyJsScope model.
-func (h *Harness) ScopeModel() {}
-
